@@ -1,7 +1,7 @@
 import sys
 pid, flavour, focus = sys.argv[1], sys.argv[2], sys.argv[3]
 prop = open('/tmp/prop-%s.txt' % pid).read()
-print(f"""You are helping to test a verification effort by mutation. You work ONLY inside the scratch git worktree /tmp/seed5-{pid} (a checkout of the Go repository massnetorg/MassNet-wallet, module massnet.org/mass-wallet, a full-node wallet) and write your results to /tmp/seed5-{pid}-out/. Do NOT read or touch /verif or /repo; do not look for other directories under /tmp. There is no network: every shell call needs
+print(f"""You are helping to test a verification effort by mutation. You work ONLY inside the scratch git worktree /tmp/seed6-{pid} (a checkout of the Go repository massnetorg/MassNet-wallet, module massnet.org/mass-wallet, a full-node wallet) and write your results to /tmp/seed6-{pid}-out/. Do NOT read or touch /verif or /repo; do not look for other directories under /tmp. There is no network: every shell call needs
   export GOFLAGS=-mod=mod GOPROXY=off GOSUMDB=off GOTOOLCHAIN=local
 (the dependency mass-core is in the module cache under /root/go/pkg/mod/github.com/massnetorg/).
 
@@ -19,7 +19,7 @@ Then write a DEMONSTRATION: a Go test file (or a small Go program) that FAILS wi
 
 Read the relevant code thoroughly first (start at README/docs and the packages api/, masswallet/, masswallet/txmgr, masswallet/keystore, masswallet/db, masswallet/utils) and think about what the property needs from several cooperating places; the best seeds are ones where each site looks fine on its own.
 
-DELIVERABLES in /tmp/seed5-{pid}-out/ :
+DELIVERABLES in /tmp/seed6-{pid}-out/ :
   patch.diff   — `git diff` of the NON-test source change only (must apply with `git apply` to a clean checkout)
   <demo file(s)> — the demonstration test/program, plus RUN.txt saying where to copy it and the exact command
   meta.json    — {{"property": "{pid}", "summary": "<what the change does and why it breaks the property>", "needs": "<what exactly is needed for it to manifest, and what does NOT trigger it>", "files_touched": [...], "demo_files": ["<file> -> <path in repo>"], "demo_cmd": "export GOFLAGS=-mod=mod GOPROXY=off GOSUMDB=off GOTOOLCHAIN=local; go test ...", "demo_fails_with_patch": true, "demo_passes_without_patch": true, "demo_output_with_patch": "...", "demo_output_without_patch": "...", "existing_tests_run": ["<cmd> -> <result>", ...]}}
